@@ -94,6 +94,29 @@ def probe_lockstep(consts):
     return out
 
 
+def probe_exit_flush(consts, r):
+    """a thread exits while its cache holds MORE than the ideal batch but is not full (it freed j blocks that another thread had allocated,
+    ideal < j < 2*ideal): its exit must hand exactly those j blocks back; a third thread then allocates through the central store holding everything"""
+    out = []
+    for chunk in (4096, 2048, 256):
+        ideal, pm, _ = consts[chunk]
+        js = sorted(set([ideal + 1, 2 * ideal - 1, (3 * ideal) // 2]))
+        for j in js:
+            if not (ideal < j < 2 * ideal):
+                continue
+            for variant in range(2):
+                m = j + (0 if variant == 0 else 2)                     # variant 1: two blocks stay live in the first thread
+                n3 = min(pm + ideal + 2, 60)
+                progs = [[('A',)] * m + [('X',)], [('D', 0)] * j + [('X',)], [('A',)] * n3 + [('X',)]]
+                budget = 60 + 4 * (m + j + n3)
+                if variant == 0:
+                    sched = [0] * (budget + 4)                           # strictly one thread after the other
+                else:
+                    sched = [0] * (3 * m + 6) + [r.randrange(0, 2) for _ in range(budget)]   # the freeing thread and the third interleave
+                out.append({'chunk': chunk, 'budget': budget, 'progs': progs, 'sched': sched[:budget + 4]})
+    return out
+
+
 def probe_native(consts):
     """the same sequence on the implementation alone, for EVERY size class (batch sizes taken from the real constants)"""
     out = []
@@ -221,7 +244,9 @@ def run(ctx):
     n = 110 if ctx.quick else 7000
     nd = 45 if ctx.quick else 2000
     probes = probe_lockstep(consts)
-    cases = [WITNESS] + probes + [gen_drain(r, consts) for _ in range(nd)] + [gen_case(r) for _ in range(n)]
+    flush = probe_exit_flush(consts, r)
+    ctx.cov['exit_flush_probe_cases'] = len(flush)
+    cases = [WITNESS] + probes + flush + [gen_drain(r, consts) for _ in range(nd)] + [gen_case(r) for _ in range(n)]
     outs = ls_common.run_cases(exe, [line_of(c) for c in cases])
     terms, kept = [], []
     distinct = set()
